@@ -301,7 +301,7 @@ class Runner:
         if capped:
             res, was_capped = run.run_capped_pipe(full, env=self.ctx["env"], timeout=self.timeout, cap=PIPE_CAP)
         else:
-            res = run.run(full, env=self.ctx["env"], timeout=self.timeout, cap=256 << 10)
+            res = run.run(full, env=self.ctx["env"], timeout=self.timeout, cap=1 << 20)
         v = sanjudge.judge(binary, res, root=self.ctx["root"])
         err = [l for l in res.err.split(b"\n") if l.strip() and not _BANNER.match(l)]
         noticed = (res.rc not in (0, None)) or (bool(err) and not quiet_stderr)
@@ -331,9 +331,10 @@ def debugfs_scripts(targets, blocks, outdir):
     targets: [(ino, S_IFMT bits of the inode in the uncorrupted base)].  Directory commands
     are only applied to inodes that are directories in the base: what such a command does
     with a regular file's data is a usage question, not an input-robustness one."""
-    t = [i for i, _ in targets]
-    dirs = [i for i, f in targets if f == 0o040000]
-    files = [i for i, f in targets if f in (0o100000, 0o120000)]
+    t = [i for i, _, _ in targets]
+    dirs = [i for i, f, _ in targets if f == 0o040000]
+    files = [i for i, f, _ in targets if f in (0o100000, 0o120000)]
+    ext = [i for i, _, fl in targets if fl & I.FL_EXTENTS]
     a = ["stats", "stats -h", "ls -l /", "ls -ld /", "ls -p /"]
     for ino in [2, 7, 8, 11, 12, 13] + t:
         a.append("stat <%d>" % ino)
@@ -342,9 +343,12 @@ def debugfs_scripts(targets, blocks, outdir):
               "blocks <%d>" % ino, "ea_list <%d>" % ino, "inode_dump -b <%d>" % ino,
               "inode_dump -e <%d>" % ino, "inode_dump -x <%d>" % ino, "imap <%d>" % ino,
               "filefrag -v <%d>" % ino, "testi <%d>" % ino]
-    for ino in t[:6]:
+    for ino in ext[:2]:
+        # (these sub-commands only exist while an extent handle is open: keep the number of
+        # possibly unknown commands far below 64, debugfs exits with their count)
         a += ["extent_open <%d>" % ino, "info", "root", "next", "next", "next", "next_leaf", "last_leaf",
               "prev", "prev_leaf", "goto_block 5", "current_node", "print_all", "extent_close"]
+    for ino in t[:6]:
         for nm in EA_NAMES[:5]:
             a.append("ea_get <%d> %s" % (ino, nm))
     for ino in dirs[:5]:
@@ -492,8 +496,9 @@ def run_case(ctx, case, paths, inf, only=None, timeout=WATCHDOG, tag=None):
             inos, blocks = _targets_from_descr(case["descr"])
             targets = []
             for i in inos + (_profile(inf) if inf else []):
-                if i not in [x for x, _ in targets]:
-                    targets.append((i, (inf.inodes.get(i, {}).get("fmt", 0) if inf else 0)))
+                if i not in [x[0] for x in targets]:
+                    d = inf.inodes.get(i, {}) if inf else {}
+                    targets.append((i, d.get("fmt", 0), d.get("flags", 0)))
             blocks = (blocks + [1, 100, 7000])[:4]
             _fs_tools(R, ctx, f["img"], workdir, tag, targets[:10], blocks)
         elif cls == "xjrnl":
@@ -576,6 +581,7 @@ def main(tier, seed, replay=None, scale=1.0):
                              "process; non-trivial = at least one tool exited non-zero or printed an error "
                              "that it does not print on the uncorrupted base; distinct by (object kind "
                              "set, operator set)" % UNIVERSE)
+    _CACHE.clear()
     b = build.get_build("asan")
     names = zoo.corpus_names("thorough")
     with run.Work("C06") as w:
@@ -737,6 +743,7 @@ def main(tier, seed, replay=None, scale=1.0):
 def minimise(cid, label, key_tail, verbose=True):
     """greedy reduction of the patches of case `cid` such that process `label` still yields
     a verdict whose key tail equals `key_tail`.  Returns the reduced case (json form)."""
+    _CACHE.clear()
     b = build.get_build("asan")
     names = zoo.corpus_names("thorough")
     with run.Work("C06min") as w:
@@ -777,3 +784,32 @@ def minimise(cid, label, key_tail, verbose=True):
             final["files"][role] = out
         assert fires(final), "byte-shrunk case lost the failure"
         return c06gen.case_to_json(final)
+
+
+def materialise(cid, outdir):
+    """development aid: write the files of case `cid` into outdir; returns the case"""
+    _CACHE.clear()
+    b = build.get_build("asan")
+    names = zoo.corpus_names("thorough")
+    os.makedirs(outdir, exist_ok=True)
+    with run.Work("C06mat") as w:
+        corpus = {n: zoo.corpus_image(n, w.dir) for n in names}
+        ctx = make_ctx(b, w.dir, corpus)
+        ctx["bases"] = build_bases(ctx, w.path("bases"), corpus)[0]
+        case, paths, inf = make_case(ctx, cid)
+        for role, src in paths.items():
+            c06gen.apply_case(case, role, src, os.path.join(outdir, "c%d.%s" % (cid, role)))
+            shutil.copyfile(src, os.path.join(outdir, "c%d.base.%s" % (cid, role)))
+        if case["cls"] in ("fs", "jrnl"):
+            inos, blocks = _targets_from_descr(case["descr"])
+            targets = []
+            for i in inos + (_profile(inf) if inf else []):
+                if i not in [x[0] for x in targets]:
+                    d = inf.inodes.get(i, {}) if inf else {}
+                    targets.append((i, d.get("fmt", 0), d.get("flags", 0)))
+            a, j, c, r = debugfs_scripts(targets[:10], (blocks + [1, 100, 7000])[:4], os.path.join(outdir, "rd"))
+            for nm, lines in (("script", a), ("logdump", j), ("cat", c), ("rdump", r)):
+                _write_script(os.path.join(outdir, "c%d.%s.cmd" % (cid, nm)), lines)
+        print(json.dumps(c06gen.case_to_json(case))[:3000])
+        print("env:", " ".join("%s=%s" % kv for kv in ctx["env"].items() if "SAN" in kv[0]))
+        return case
